@@ -445,7 +445,8 @@ func (x *runner) run(sc scenario) {
 		r      io.Reader
 		src    *source
 		wpos   int
-		got    int // position in the plaintext behind the bytes returned last
+		got    int  // position in the plaintext behind the bytes returned last
+		post   bool // a Read has already returned a non-nil result (what follows is not judged)
 		altAad bool
 	)
 	for _, o := range sc.Ops {
@@ -521,7 +522,8 @@ func (x *runner) run(sc scenario) {
 				var n int
 				var err error
 				pan, _ := vt.Try(func() { n, err = r.Read(p) })
-				e := vt.Ev{"ev": "Read", "n": sz, "ret": n, "err": errClass(err), "panic": pan, "calls": src.take()}
+				e := vt.Ev{"ev": "Read", "n": sz, "ret": n, "err": errClass(err), "panic": pan, "calls": src.take(), "post": post}
+				post = post || err != nil
 				if pan || n < 0 || n > sz {
 					x.tw.Emit(e)
 					return
@@ -564,6 +566,7 @@ func main() {
 	n := flag.Int("n", 100, "number of generated scenarios")
 	req := flag.String("req", "", "format: file of encryption requests for the specification (written by -gen format, read by -sealed)")
 	sealed := flag.String("sealed", "", "format: ciphertexts made by the specification (Plan_Stream) to be fed to Tink")
+	redo := flag.String("redo", "", "format: recorded enc/dec events to execute again (replay)")
 	flag.Parse()
 	if *out == "" {
 		vt.Fatal("-out required")
@@ -598,6 +601,8 @@ func main() {
 		genKeyset(x, *n)
 	case *gen == "format":
 		genFormat(x, *n, *req)
+	case *redo != "":
+		redoFormat(x, *redo)
 	case *sealed != "":
 		decSealed(x, *req, *sealed)
 	default:
